@@ -168,16 +168,17 @@ package revocation
 
 //@ func (*Witness).Update
 //@   property C09 C10
+//@   safety
 //@   requires w != nil && pk != nil && pk.N != nil && val(pk.N) > 1 && update != nil && update.SignedAccumulator != nil && evnonnil(update.Events) && prodinv(update)
-//@   requires w.SignedAccumulator != nil && w.SignedAccumulator.Accumulator != nil && w.U != nil && w.E != nil && val(w.E) > 0
+//@   requires w.U != nil && w.E != nil && val(w.E) > 0
 //@   assume invertible: hasinv(val(w.U), val(pk.N))
-//@   ensures atomic: err != nil ==> w.U == old(w.U) && w.E == old(w.E) && w.SignedAccumulator == old(w.SignedAccumulator) && w.SignedAccumulator.Accumulator == old(w.SignedAccumulator.Accumulator) && w.SignedAccumulator.PKCounter == old(w.SignedAccumulator.PKCounter) && w.SignedAccumulator.Data == old(w.SignedAccumulator.Data) && val(w.U) == old(val(w.U))
-//@   ensures forward: err == nil ==> w.SignedAccumulator.Accumulator != nil && w.SignedAccumulator.Accumulator.Index >= old(w.SignedAccumulator.Accumulator.Index)
+//@   ensures atomic: err != nil ==> w.U == old(w.U) && w.E == old(w.E) && w.SignedAccumulator == old(w.SignedAccumulator) && (old(w.SignedAccumulator) != nil ==> (old(w.SignedAccumulator.Accumulator) != nil ==> w.SignedAccumulator.Accumulator == old(w.SignedAccumulator.Accumulator)) && w.SignedAccumulator.PKCounter == old(w.SignedAccumulator.PKCounter) && w.SignedAccumulator.Data == old(w.SignedAccumulator.Data)) && val(w.U) == old(val(w.U))
+//@   ensures forward: err == nil ==> w.SignedAccumulator != nil && w.SignedAccumulator.Accumulator != nil && (old(w.SignedAccumulator.Accumulator) != nil ==> w.SignedAccumulator.Accumulator.Index >= old(w.SignedAccumulator.Accumulator.Index))
 //@   ensures checked: err == nil && w.U != old(w.U) ==> w.SignedAccumulator.Accumulator.Nu != nil && pow(val(w.U), val(w.E), val(pk.N)) == val(w.SignedAccumulator.Accumulator.Nu)
 //@   ensures kept: w.E == old(w.E) && val(w.E) == old(val(w.E))
-//@   ensures tracked: err == nil && w.SignedAccumulator.Accumulator.Index != old(w.SignedAccumulator.Accumulator.Index) ==> w.U != old(w.U)
+//@   ensures tracked: err == nil && old(w.SignedAccumulator.Accumulator) != nil && w.SignedAccumulator.Accumulator.Index != old(w.SignedAccumulator.Accumulator.Index) ==> w.U != old(w.U)
 //@   ensures verified: err == nil && (w.U != old(w.U) || w.SignedAccumulator != old(w.SignedAccumulator)) ==> update.SignedAccumulator.Accumulator != nil && chained(update.Events, update.SignedAccumulator.Accumulator)
-//@   ensures notrevoked: err == nil && w.U != old(w.U) && len(update.Events) > 0 ==> gcd(val(w.E), old(eprod(update.Events, w.SignedAccumulator.Accumulator.Index + 1 - update.Events[0].Index, len(update.Events)))) == 1
+//@   ensures notrevoked: err == nil && w.U != old(w.U) && len(update.Events) > 0 && old(w.SignedAccumulator.Accumulator) != nil ==> gcd(val(w.E), old(eprod(update.Events, w.SignedAccumulator.Accumulator.Index + 1 - update.Events[0].Index, len(update.Events)))) == 1
 //@   modifies w.U, w.SignedAccumulator, heap("Witness.Updated"), fields(w.SignedAccumulator), update.SignedAccumulator.Accumulator, update.product, update.productFrom
 //@   mustfail canary: err != nil
 
